@@ -172,10 +172,12 @@ MANIFEST = dict(
          "iff it is in the set, otherwise the deny/default/return outcome the property names; plus a correspondence run "
          "that renders with the real iptables and nftables renderers and checks model == implementation structurally and "
          "the spec oracle on the implementation's chains for generated probes.  Part 2: an executable model of the nftables "
-         "verdict-map programming layer (maps.go Maps, table.go Apply/retry/table-recreate) with theorems that the table-recreate "
-         "path restores every desired dispatch map with exactly its members from any cached state (partial: the incremental path "
-         "is covered by correspondence + oracle only), composed with part 1 into 'known interface -> own chain' over the kernel's "
-         "map, and a correspondence run driving the real NftablesTable over the package's fake nft under injected transaction and "
+         "verdict-map programming layer (maps.go Maps, table.go Apply/retry/table-recreate) with the theorem that after ANY history "
+         "of desired-map changes, failed transactions, failed listings, cache invalidations and table recreates, whenever Apply() "
+         "returns the kernel's dispatch verdict maps equal the desired mappings exactly (invariant proof; hypotheses: only Felix "
+         "writes the table, it starts absent - or the invariant holds, e.g. after one fully successful resync), composed with part 1 "
+         "into 'known interface -> own chain, others dropped' over the kernel's map, the oracle-accepts-every-model-run theorem, "
+         "and a correspondence run driving the real NftablesTable over the package's fake nft under injected transaction and "
          "listing failures.",
     note="Trusted: Coq kernel; netfilter interface-match semantics as modelled in Nf.v; hand model tied to code by the correspondence run; Go driver.",
 )
